@@ -31,6 +31,10 @@
 
 #include "process.h"            /* struct process */
 #include "signals.h"            /* halt() */
+#include "verif.h"
+#ifdef KJN_LBZIP2_VERIF
+#include <sys/resource.h>      /* getrusage() */
+#endif
 
 
 /*
@@ -113,6 +117,7 @@ xread(void *vbuf, size_t *vacant)
   do {
     ssize_t rd;
 
+    VERIF_PERTURB();
     rd = read(ispec.fd, buffer, *vacant > (size_t)SSIZE_MAX ?
               (size_t)SSIZE_MAX : *vacant);
 
@@ -143,6 +148,7 @@ xwrite(const void *vbuf, size_t size)
     do {
       ssize_t wr;
 
+      VERIF_PERTURB();
       wr = write(ospec.fd, buffer, size > (size_t)SSIZE_MAX ?
                  (size_t)SSIZE_MAX : size);
 
@@ -267,6 +273,7 @@ source_thread_proc(void)
     size_t vacant, avail;
 
     xlock(&source_mutex);
+    VERIF_MON_SET(VERIF_M_SOURCE);
     while (in_slots == 0 && !request_close) {
       Trace(("    source: stalled"));
       xwait(&source_cond, &source_mutex);
@@ -274,17 +281,22 @@ source_thread_proc(void)
 
     if (request_close) {
       Trace(("    source: received premature close requtest"));
+      VERIF_EV("\"e\":\"SrcStop\",\"is\":%u", in_slots);
+      VERIF_MON_CLR(VERIF_M_SOURCE);
       xunlock(&source_mutex);
       break;
     }
 
     Trace(("    source: reading data (%u free slots)", in_slots));
     in_slots--;
+    VERIF_EV("\"e\":\"SrcTake\",\"is\":%u", in_slots);
+    VERIF_MON_CLR(VERIF_M_SOURCE);
     xunlock(&source_mutex);
 
     vacant = in_granul;
     avail = vacant;
     buffer = XNMALLOC(vacant, uint8_t);
+    VERIF_ALLOC(VERIF_C_INBUF);
     xread(buffer, &vacant);
     avail -= vacant;
 
@@ -301,6 +313,7 @@ source_thread_proc(void)
 
   sched_lock();
   eof = 1;
+  VERIF_EV("\"e\":\"Eof\"");
   sched_unlock();
 
   Trace(("    source: terminating"));
@@ -313,10 +326,17 @@ void
 source_release_buffer(void *buffer)
 {
   free(buffer);
+  VERIF_FREE(VERIF_C_INBUF);
 
   xlock(&source_mutex);
+  VERIF_MON_SET(VERIF_M_SOURCE);
   if (in_slots++ == 0)
     xsignal(&source_cond);
+#ifdef KJN_LBZIP2_VERIF
+  verif_rel_note();
+#endif
+  VERIF_EV("\"e\":\"SrcRel\",\"is\":%u", in_slots);
+  VERIF_MON_CLR(VERIF_M_SOURCE);
   xunlock(&source_mutex);
 }
 
@@ -325,9 +345,12 @@ void
 source_close(void)
 {
   xlock(&source_mutex);
+  VERIF_MON_SET(VERIF_M_SOURCE);
   request_close = true;
   if (in_slots == 0)
     xsignal(&source_cond);
+  VERIF_EV("\"e\":\"SrcClose\",\"is\":%u", in_slots);
+  VERIF_MON_CLR(VERIF_M_SOURCE);
   xunlock(&source_mutex);
 }
 
@@ -342,8 +365,12 @@ sink_write_buffer(void *buffer, size_t size, size_t weight)
   block.weight = weight;
 
   xlock(&sink_mutex);
+  VERIF_MON_SET(VERIF_M_SINK);
   push(output_q, block);
   xsignal(&sink_cond);
+  VERIF_EV("\"e\":\"SinkPush\",\"n\":%u,\"size\":%lu", size(output_q),
+           (unsigned long)size);
+  VERIF_MON_CLR(VERIF_M_SINK);
   xunlock(&sink_mutex);
 }
 
@@ -373,6 +400,7 @@ sink_thread_proc(void)
 
   for (;;) {
     xlock(&sink_mutex);
+    VERIF_MON_SET(VERIF_M_SINK);
     while (empty(output_q) && !finish) {
       Trace(("      sink: stalled"));
       xwait(&sink_cond, &sink_mutex);
@@ -382,6 +410,9 @@ sink_thread_proc(void)
       break;
 
     block = shift(output_q);
+    VERIF_EV("\"e\":\"SinkPop\",\"n\":%u,\"size\":%lu", size(output_q),
+             (unsigned long)block.size);
+    VERIF_MON_CLR(VERIF_M_SINK);
     xunlock(&sink_mutex);
 
     Trace(("      sink: writing data (%u bytes)", (unsigned)block.size));
@@ -411,6 +442,8 @@ sink_thread_proc(void)
     }
   }
 
+  VERIF_EV("\"e\":\"SinkExit\"");
+  VERIF_MON_CLR(VERIF_M_SINK);
   xunlock(&sink_mutex);
 
   Trace(("      sink: terminating"));
@@ -438,7 +471,10 @@ select_task(void)
 static void
 worker_thread_proc(void)
 {
+  VERIF_PERTURB();
   xlock(&sched_mutex);
+  VERIF_MON_SET(VERIF_M_SCHED);
+  VERIF_EV("\"e\":\"WStart\"");
   Trace(("worker[%2u]: spawned", (id = thread_id++)));
 
   for (;;) {
@@ -452,10 +488,15 @@ worker_thread_proc(void)
       break;
 
     Trace(("worker[%2u]: stalled", id));
+    VERIF_EV("\"e\":\"WWait\"");
     xwait(&sched_cond, &sched_mutex);
+    VERIF_EV("\"e\":\"WWake\",\"task\":\"%s\"",
+             next_task != NULL ? next_task->name : "");
   }
 
+  VERIF_EV("\"e\":\"WExit\"");
   xbroadcast(&sched_cond);
+  VERIF_MON_CLR(VERIF_M_SCHED);
   xunlock(&sched_mutex);
 
   Trace(("worker[%2u]: terminating", id));
@@ -468,7 +509,9 @@ static struct thread_entry worker_thread_entry = { worker_thread_proc };
 void
 sched_lock(void)
 {
+  VERIF_PERTURB();
   xlock(&sched_mutex);
+  VERIF_MON_SET(VERIF_M_SCHED);
 }
 
 
@@ -481,7 +524,9 @@ sched_unlock(void)
   if (next_task != NULL || process->finished())
     xsignal(&sched_cond);
 
+  VERIF_MON_CLR(VERIF_M_SCHED);
   xunlock(&sched_mutex);
+  VERIF_PERTURB();
 }
 
 
@@ -503,8 +548,11 @@ uninit_io(void)
   xjoin(source_thread);
 
   xlock(&sink_mutex);
+  VERIF_MON_SET(VERIF_M_SINK);
   finish = true;
   xsignal(&sink_cond);
+  VERIF_EV("\"e\":\"SinkFinish\",\"n\":%u", size(output_q));
+  VERIF_MON_CLR(VERIF_M_SINK);
   xunlock(&sink_mutex);
 
   xjoin(sink_thread);
@@ -538,6 +586,18 @@ primary_thread(void)
 
   uninit_io();
   process->uninit();
+#ifdef KJN_LBZIP2_VERIF
+  {
+    struct rusage ru;
+    getrusage(RUSAGE_SELF, &ru);
+    VERIF_EV("\"e\":\"Uninit\",\"eof\":%d,\"wu\":%u,\"os\":%u,\"is\":%u,"
+             "\"live\":[%d,%d,%d,%d,%d],\"peak\":[%d,%d,%d,%d,%d],"
+             "\"rss\":%ld", (int)eof, work_units, out_slots, in_slots,
+             verif_live(0), verif_live(1), verif_live(2), verif_live(3),
+             verif_live(4), verif_peak(0), verif_peak(1), verif_peak(2),
+             verif_peak(3), verif_peak(4), (long)ru.ru_maxrss);
+  }
+#endif
 
   assert(eof);
   assert(in_slots == total_in_slots);
@@ -555,6 +615,8 @@ copy_on_input_avail(void *buffer, size_t size)
 {
   sched_lock();
   out_slots--;
+  VERIF_EV("\"e\":\"CopyAvail\",\"os\":%u,\"size\":%lu", out_slots,
+           (unsigned long)size);
   sched_unlock();
 
   sink_write_buffer(buffer, size, size);
@@ -568,6 +630,7 @@ copy_on_write_complete(void *buffer)
 
   sched_lock();
   out_slots++;
+  VERIF_EV("\"e\":\"CopyWritten\",\"os\":%u", out_slots);
   sched_unlock();
 }
 
@@ -575,6 +638,10 @@ copy_on_write_complete(void *buffer)
 static bool
 copy_terminate(void)
 {
+#ifdef KJN_LBZIP2_VERIF
+  if (eof && out_slots == total_out_slots)
+    VERIF_EV("\"e\":\"CopyTerm\",\"os\":%u", out_slots);
+#endif
   if (eof && out_slots == total_out_slots)
     xraise(SIGUSR2);
 
@@ -602,9 +669,13 @@ copy(void)
   in_granul = 65536;
 
   process = &pseudo_process;
+  VERIF_EV("\"e\":\"CopyInit\",\"tin\":%u,\"tout\":%u,\"ig\":%lu", in_slots,
+           out_slots, (unsigned long)in_granul);
   init_io();
   halt();
   uninit_io();
+  VERIF_EV("\"e\":\"CopyUninit\",\"eof\":%d,\"os\":%u,\"is\":%u", (int)eof,
+           out_slots, in_slots);
 }
 
 
@@ -656,6 +727,20 @@ work(void)
   }
 
   set_memory_constraints();
+#ifdef KJN_LBZIP2_VERIF
+  in_granul = verif_env("VERIF_IN_GRANUL", in_granul);
+  if (decompress)
+    out_granul = verif_env("VERIF_OUT_GRANUL", out_granul);
+  total_in_slots = verif_env("VERIF_IN_SLOTS", total_in_slots);
+  total_out_slots = verif_env("VERIF_OUT_SLOTS", total_out_slots);
+  verif_alloc_reset();
+  VERIF_EV("\"e\":\"Start\",\"d\":%d,\"W\":%u,\"tin\":%u,\"tout\":%u,"
+           "\"ig\":%lu,\"og\":%lu,\"ultra\":%d,\"small\":%d,\"bs\":%u",
+           (int)decompress, num_worker, total_in_slots, total_out_slots,
+           (unsigned long)in_granul,
+           (unsigned long)(decompress ? out_granul : 0), (int)ultra,
+           (int)small, (unsigned)bs100k);
+#endif
 
   if (!decompress) {
     schedule(&compression);
